@@ -9,6 +9,7 @@ require (
 )
 
 require (
+	github.com/aperturerobotics/protobuf-go-lite v0.8.0 // indirect
 	github.com/pkg/errors v0.9.1 // indirect
 	golang.org/x/exp v0.0.0-20241108190413-2d47ceb2692f // indirect
 )
